@@ -34,7 +34,11 @@ class Behaviour(object):
 
 class Contract(object):
     def __init__(self, target, params=None, behaviours=None, loops=None, inline=False, result=None,
-                 fields=None, locals=None, note="", tier=1, trusted=False, dispatch=None, effect_free=False, abstract_calls=None, **default_behaviour):
+                 fields=None, locals=None, note="", tier=1, trusted=False, dispatch=None, effect_free=False, abstract_calls=None, free=None, self_methods=None, self_name="self", solver_pruning=False, **default_behaviour):
+        self.solver_pruning = solver_pruning
+        self.self_methods = dict(self_methods or {})  # {method name: reason} - `self.<name>` resolved statically to the class's own function
+        self.self_name = self_name
+        self.free = dict(free or {})                # free variables of a nested function (closure cells): name -> sort
         # call expressions (matched on the source text of the callee expression) replaced by a named library model:
         # {'self._HANDLERS[handler]': 'handler_run', 'logger.debug': 'log'}
         self.abstract_calls = dict(abstract_calls or {})
